@@ -1,11 +1,17 @@
 import FCA.Proofs.DefnDerive
 import FCA.Props.C13
+import FCA.Proofs.DefnCtx
+import FCA.Proofs.DefnHeap
+import FCA.Proofs.Galois
+import FCA.Model.Formats
 /-
 C14 — derived definitions are correct and unaliased; Context <-> Definition are inverse.
 
 `union`, `intersection`, `take`, `transposed`, `inverted` return the mathematically expected table
-as a new value (the model has value semantics, so "shares no mutable state" is `C14_frame`);
-`Context(*definition)` stores exactly the definition's table.
+as a new value; "shares no mutable state" is proved on the reference model `Model/DefnHeap.lean`
+(`C14_heap_refines`, `C14_fresh`, `C14_no_alias*`, `C14_program_refines`); `Context(*definition)`
+stores exactly the definition's table and vice versa, equal contexts = equal triples, shape / fill
+count / table text agree.
 -/
 namespace FCA
 
@@ -477,13 +483,281 @@ example : ∃ K, ctxOfTriple exD.objs exD.props exD.bools = .ok K ∧ K.rows = #
 example : exD.Inv ∧ ctorAccepts exD.objs exD.props (exD.bools.map (·.length)) = true :=
   ⟨exD_inv, by decide⟩
 
+/-! ### Context → definition() → Context, equality of contexts, shape / fill ratio, table text -/
+
+/-- an accepted triple is rectangular with duplicate-free names, so `Definition(os, ps, bs)` is
+accepted too and shows exactly the given table -/
+theorem C14_ofTriple_of_accepted {os ps : List Name} {bs : List (List Bool)} {K : Ctx}
+    (h : ctxOfTriple os ps bs = .ok K) :
+    ∃ d, Defn.ofTriple os ps bs = .ok d ∧ d.Inv ∧ d.objs = os ∧ d.props = ps ∧ d.bools = bs := by
+  obtain ⟨hacc, _⟩ := ctxOfTriple_ok_iff.mp h
+  have hr := rect_of_accepts hacc
+  rw [defn_ctorAccepts_iff] at hacc
+  have hof := ofTriple_of_nodup bs hacc.2.1 hacc.2.2.2.1
+  exact ⟨_, hof, C13_inv_ofTriple hof, rfl, rfl, ofTriple_bools hof hr⟩
+
+/-- Context → `definition()` → `Context(*definition)`: for an accepted triple the definition built
+from it exists, and the context built from the definition's triple is the same context -/
+theorem C14_def_ctx_roundtrip2 {os ps : List Name} {bs : List (List Bool)} {K : Ctx}
+    (h : ctxOfTriple os ps bs = .ok K) :
+    ∃ d, Defn.ofTriple os ps bs = .ok d ∧
+      ctxOfTriple d.objs d.props d.bools = ctxOfTriple os ps bs ∧
+      ctxOfTriple d.objs d.props d.bools = .ok K := by
+  obtain ⟨d, hd, _, h1, h2, h3⟩ := C14_ofTriple_of_accepted h
+  exact ⟨d, hd, by rw [h1, h2, h3], by rw [h1, h2, h3, h]⟩
+
+example : ∃ K, ctxOfTriple ["o1", "o2"] ["p1", "p2"] [[true, false], [false, true]] = .ok K :=
+  ⟨_, rfl⟩
+
+/-- the same starting from an index-level context: reading the table back and constructing again
+gives the same context (names only have to fit the shape and be acceptable) -/
+theorem C14_ctx_def_ctx {K : Ctx} (h : K.WF) {os ps : List Name} (hn : K.n = os.length)
+    (hm : K.m = ps.length) (hacc : ctorAccepts os ps (List.replicate K.n K.m) = true) :
+    ctxOfTriple os ps (ctxBools K) = .ok K := by
+  have hlen : (ctxBools K).map (·.length) = List.replicate K.n K.m := by
+    simp [ctxBools, List.eq_replicate_iff]
+  rw [ctxOfTriple_ok_iff, hlen]
+  refine ⟨hacc, ?_⟩
+  obtain ⟨n, m, rows, cols⟩ := K
+  obtain ⟨h1, h2, h3⟩ := h
+  simp only at h1 h2 h3 hn hm
+  subst h3
+  simp only [mkCtx, ← hn, ← hm, Ctx.mk.injEq, true_and]
+  have hrows : rows = ((ctxBools ⟨n, m, rows, colsOf n m rows⟩).map rowMask).toArray := by
+    apply Array.ext
+    · simp [ctxBools, h1]
+    · intro i hi1 hi2
+      have hi : i < n := by omega
+      simp only [ctxBools, List.map_map, List.getElem_toArray, List.getElem_map, List.getElem_range,
+        Function.comp]
+      have hget : rows[i]! = rows[i] := by simp [hi1]
+      apply Nat.eq_of_testBit_eq
+      intro j
+      rw [testBit_rowMask, hget]
+      by_cases hj : j < m
+      · simp [List.getD_eq_getElem?_getD, hj]
+      · have hlt := h2 i hi
+        rw [hget] at hlt
+        have : rows[i].testBit j = false :=
+          Nat.testBit_lt_two_pow (Nat.lt_of_lt_of_le hlt (Nat.pow_le_pow_right (by omega) (by omega)))
+        simp [List.getD_eq_getElem?_getD, hj, this]
+  exact ⟨hrows, by rw [← hrows]⟩
+
+example : (mkCtx 2 2 #[1, 2]).WF ∧ ctorAccepts ["a", "b"] ["x", "y"] (List.replicate 2 2) = true ∧
+    ctxOfTriple ["a", "b"] ["x", "y"] (ctxBools (mkCtx 2 2 #[1, 2])) = .ok (mkCtx 2 2 #[1, 2]) := by
+  have hw : (mkCtx 2 2 #[1, 2]).WF :=
+    mkCtx_WF 2 2 #[1, 2] rfl (by intro i hi; interval_cases i <;> decide)
+  exact ⟨hw, by decide, C14_ctx_def_ctx hw rfl rfl (by decide)⟩
+
+/-- two contexts are equal exactly when their triples are equal -/
+theorem C14_ctx_eq_iff_triple {os ps os' ps' : List Name} {bs bs' : List (List Bool)} {K K' : Ctx}
+    (h : ctxOfTriple os ps bs = .ok K) (h' : ctxOfTriple os' ps' bs' = .ok K') :
+    (os = os' ∧ ps = ps' ∧ K = K') ↔ (os = os' ∧ ps = ps' ∧ bs = bs') := by
+  constructor
+  · rintro ⟨rfl, rfl, rfl⟩
+    refine ⟨rfl, rfl, ?_⟩
+    obtain ⟨a1, e1⟩ := ctxOfTriple_ok_iff.mp h
+    obtain ⟨a2, e2⟩ := ctxOfTriple_ok_iff.mp h'
+    have := e1.symm.trans e2
+    simp only [mkCtx, Ctx.mk.injEq, true_and] at this
+    have hm : bs.map rowMask = bs'.map rowMask := by simpa using this.1
+    exact map_rowMask_inj (rect_of_accepts a1).2 (rect_of_accepts a2).2 hm
+  · rintro ⟨rfl, rfl, rfl⟩
+    rw [h] at h'
+    exact ⟨rfl, rfl, by cases h'; rfl⟩
+
+example : ∃ K K', ctxOfTriple ["a", "b"] ["x"] [[true], [false]] = .ok K ∧
+    ctxOfTriple ["a", "b"] ["x"] [[false], [true]] = .ok K' ∧ K.rows ≠ K'.rows :=
+  ⟨_, _, rfl, rfl, by decide⟩
+
+/-- … and the table read back from the context is the table it was built from -/
+theorem C14_ctxBools_of_triple {os ps : List Name} {bs : List (List Bool)} {K : Ctx}
+    (h : ctxOfTriple os ps bs = .ok K) : ctxBools K = bs := by
+  obtain ⟨d, _, _, h1, h2, h3⟩ := C14_ofTriple_of_accepted h
+  rw [← h1, ← h2, ← h3] at h
+  rw [(C14_ctx_def_inverse h).2.2.2.2.2, h3]
+
+/-- numerator of `Context.fill_ratio`: `sum(intent.count() for intent in self._intents)` -/
+def ctxFillCount (K : Ctx) : Nat := ((List.range K.n).map fun i => card K.m (K.rows[i]!)).sum
+
+theorem ctxFillCount_eq (K : Ctx) : ctxFillCount K = ((ctxBools K).map (·.count true)).sum := by
+  simp only [ctxFillCount, ctxBools, List.map_map]
+  congr 1
+  apply List.map_congr_left
+  intro i _
+  simp only [Function.comp, card_eq_count]
+
+/-- `shape` and the numerator of `fill_ratio` agree between a definition and its context (the fill
+ratios are these counts over `n * m`) -/
+theorem C14_shape_fill {d : Defn} {K : Ctx} (hd : d.Inv)
+    (h : ctxOfTriple d.objs d.props d.bools = .ok K) :
+    K.n = d.shape.1 ∧ K.m = d.shape.2 ∧ ctxFillCount K = d.fillCount := by
+  obtain ⟨h1, h2, _, _, _, h6⟩ := C14_ctx_def_inverse h
+  refine ⟨h1, h2, ?_⟩
+  rw [ctxFillCount_eq, h6, bools_count_inv hd]
+  rfl
+
+example : exD.Inv ∧ ∃ K, ctxOfTriple exD.objs exD.props exD.bools = .ok K ∧
+    ctxFillCount K = 2 ∧ exD.fillCount = 2 ∧ exD.shape = (2, 2) :=
+  ⟨exD_inv, _, rfl, by decide, by decide, by decide⟩
+
+/-- without the invariant the counts differ: a residue cell is counted by the definition only -/
+example : ∃ K, ctxOfTriple ["o1"] ["p1"] (Defn.bools ⟨["o1"], ["p1"], [("o1", "p1"), ("gone", "p1")]⟩) = .ok K ∧
+    ctxFillCount K = 1 ∧ Defn.fillCount ⟨["o1"], ["p1"], [("o1", "p1"), ("gone", "p1")]⟩ = 2 :=
+  ⟨_, rfl, by decide, by decide⟩
+
+/-- context and definition print the same table (and have the same `crc32`, …): both pass the same
+`(objects, properties, bools)` triple to the same function -/
+theorem C14_table_text {d : Defn} {K : Ctx} (h : ctxOfTriple d.objs d.props d.bools = .ok K)
+    (indent : Nat) :
+    dumpTable indent (d.objs.map String.toList) (d.props.map String.toList) (ctxBools K) =
+      dumpTable indent (d.objs.map String.toList) (d.props.map String.toList) d.bools ∧
+    ∀ {β : Type} (f : List Name → List Name → List (List Bool) → β),
+      f d.objs d.props (ctxBools K) = f d.objs d.props d.bools := by
+  rw [(C14_ctx_def_inverse h).2.2.2.2.2]
+  exact ⟨rfl, fun _ => rfl⟩
+
 /-! ### value semantics -/
 
-/-- editing one definition of a collection leaves all others unchanged: derived definitions share
-no state with their sources -/
+/-- in the value model, editing one definition of a collection leaves all others unchanged.  This is
+a fact about lists only; that the value model is adequate — deriving methods return objects that
+share no mutable state with their sources — is `C14_heap_refines`, `C14_fresh`, `C14_no_alias*` and
+`C14_program_refines` below. -/
 theorem C14_frame (ds : List Defn) (i j : Nat) (d' : Defn) (hij : i ≠ j) :
     (ds.set i d')[j]? = ds[j]? := by
   simp [hij]
+
+/-! ### reference semantics: refinement, fresh objects, no aliasing
+
+`FCA/Model/DefnHeap.lean` models `Definition` objects as triples of addresses of mutable objects on a
+heap.  The value model (`Model/Defn.lean`) is what one reads through a reference. -/
+
+/-- two separate `Definition` objects on a heap -/
+def exHeap : Heap :=
+  [.names exD.objs, .names exD.props, .cells exD.pairs, .names exE.objs, .names exE.props, .cells exE.pairs]
+def exR : DRef := ⟨0, 1, 2⟩
+def exR' : DRef := ⟨3, 4, 5⟩
+
+example : exR.Valid exHeap ∧ exR'.Valid exHeap ∧ exR.Disjoint exR' ∧
+    exHeap.read exR = exD ∧ exHeap.read exR' = exE := by decide
+
+/-- every heap operation, read back, is the value-level operation: the fifteen mutators (the operand
+of an in-place union / intersection being the receiver itself or a separate object), and the six
+deriving methods; a deriving method leaves every existing object — in particular its sources — as it
+was -/
+theorem C14_heap_refines (h : Heap) (r : DRef) (hv : r.Valid h) :
+    (∀ op : HOp, op.Compat r →
+      (h.step r op).map (fun x => (x.1.read r, x.2)) = (h.read r).step (op.toOp h.read)) ∧
+    (∀ op : DOp, (∀ o ∈ op.refs, o.Valid h) →
+      (h.derive r op).map (fun x => x.1.read x.2) = (h.read r).derive h.read op) ∧
+    (∀ (op : DOp) (h' : Heap) (res : DRef), h.derive r op = .ok (h', res) →
+      ∀ r', r'.Valid h → h'.read r' = h.read r') := by
+  refine ⟨fun op hc => step_refines hv hc, fun op hor => derive_refines hor, ?_⟩
+  intro op h' res hs r' hv'
+  obtain ⟨_, _, hu⟩ := derive_fresh hs
+  apply read_congr
+  intro a ha
+  apply hu
+  simp only [DRef.addrs, List.mem_cons, List.not_mem_nil, or_false] at ha
+  unfold DRef.Valid at hv'
+  omega
+
+example : exR.Valid exHeap ∧ (HOpG.unionUpdate exR' false).Compat exR ∧
+    (HOpG.unionUpdate exR false).Compat exR ∧ (∀ o ∈ (DOpG.union exR' false).refs, o.Valid exHeap) :=
+  ⟨by decide, Or.inr (by decide), Or.inl rfl, fun o ho => by
+    simp only [DOpG.refs, List.mem_singleton] at ho; subst ho; decide⟩
+
+/-- the deriving methods spelled out -/
+theorem C14_heap_refines_derived (h : Heap) (r other : DRef) (ho : other.Valid h) :
+    (h.copy r).1.read (h.copy r).2 = h.read r ∧
+    (h.inverted r).1.read (h.inverted r).2 = (h.read r).inverted ∧
+    (h.transposed r).1.read (h.transposed r).2 = (h.read r).transposed ∧
+    (∀ a b ro, (h.take r a b ro).map (fun x => x.1.read x.2) = (h.read r).take a b ro) ∧
+    (∀ ig, (h.union r other ig).map (fun x => x.1.read x.2) = (h.read r).union (h.read other) ig) ∧
+    (∀ ig, (h.intersection r other ig).map (fun x => x.1.read x.2) =
+      (h.read r).intersection (h.read other) ig) := by
+  refine ⟨?_, read_new _ _, read_new _ _, ?_, fun ig => union_refines ho,
+    fun ig => intersection_refines ho⟩
+  · rw [Heap.copy, read_new, copy_eq]
+  · intro a b ro
+    have := derive_refines (h := h) (r := r) (op := .take a b ro) (by simp [DOpG.refs])
+    simpa only [Heap.derive, Defn.derive] using this
+
+/-- the object returned by a deriving method consists of three new addresses (not below the old heap
+size), pairwise different; hence it is disjoint from every object that existed before; the old part
+of the heap is unchanged -/
+theorem C14_fresh {h h' : Heap} {r res : DRef} {op : DOp} (hs : h.derive r op = .ok (h', res)) :
+    res = ⟨h.length, h.length + 1, h.length + 2⟩ ∧ (∀ a ∈ res.addrs, h.length ≤ a) ∧
+    res.Valid h' ∧ h'.length = h.length + 3 ∧ (∀ a, a < h.length → h'[a]? = h[a]?) ∧
+    ∀ r', r'.Valid h → r'.Disjoint res ∧ res.Disjoint r' := by
+  obtain ⟨hres, hl, hu⟩ := derive_fresh hs
+  subst hres
+  refine ⟨rfl, ?_, ?_, hl, hu, ?_⟩
+  · intro a ha
+    simp only [DRef.addrs, List.mem_cons, List.not_mem_nil, or_false] at ha
+    omega
+  · simp only [DRef.Valid]; omega
+  · intro r' hv'
+    have : r'.Disjoint ⟨h.length, h.length + 1, h.length + 2⟩ := disjoint_new hv' Defn.empty
+    exact ⟨this, this.symm⟩
+
+example : ∃ h' res, exHeap.derive exR (.union exR' false) = .ok (h', res) ∧ res = ⟨6, 7, 8⟩ ∧
+    h'.read res = ⟨["o1", "o2", "o3"], ["p1", "p2", "p3"], [("o1", "p1"), ("o2", "p2"), ("o3", "p3")]⟩ :=
+  ⟨_, _, rfl, by decide, by decide⟩
+
+/-- a mutator writes to the three objects of its receiver only: it keeps the heap size, leaves every
+other address alone, and so every object with a disjoint address set reads the same afterwards -/
+theorem C14_no_alias {h h' : Heap} {r r' : DRef} {op : HOp} {ret : List Name} (hd : r.Disjoint r')
+    (hs : h.step r op = .ok (h', ret)) :
+    h'.read r' = h.read r' ∧ h'.length = h.length ∧ ∀ a, a ∉ r.addrs → h'[a]? = h[a]? :=
+  ⟨step_frame hd hs, (step_untouched hs).1, (step_untouched hs).2⟩
+
+/-- … for every history of mutator calls on objects disjoint from `r'` -/
+theorem C14_no_alias_history (h : Heap) (r' : DRef) (steps : List (DRef × HOp))
+    (hd : ∀ s ∈ steps, s.1.Disjoint r') : (h.run steps).read r' = h.read r' := by
+  apply read_congr
+  intro a ha
+  exact (run_untouched h steps).2 a fun s hs ha' => hd s hs a ha' ha
+
+/-- source and result of a deriving method: editing either side afterwards — any history of
+mutator calls, on the result or on objects that existed before — never changes the other -/
+theorem C14_no_alias_derived {h h1 : Heap} {r res : DRef} {op : DOp}
+    (hs : h.derive r op = .ok (h1, res)) :
+    (∀ r', r'.Valid h → ∀ steps : List (DRef × HOp), (∀ s ∈ steps, s.1 = res) →
+      (h1.run steps).read r' = h.read r') ∧
+    (∀ steps : List (DRef × HOp), (∀ s ∈ steps, s.1.Valid h) →
+      (h1.run steps).read res = h1.read res) := by
+  obtain ⟨_, _, _, _, hu, hdis⟩ := C14_fresh hs
+  constructor
+  · intro r' hv' steps hst
+    rw [C14_no_alias_history h1 r' steps (fun s hs' => by rw [hst s hs']; exact (hdis r' hv').2)]
+    apply read_congr
+    intro a ha
+    apply hu
+    simp only [DRef.addrs, List.mem_cons, List.not_mem_nil, or_false] at ha
+    unfold DRef.Valid at hv'
+    omega
+  · intro steps hst
+    exact C14_no_alias_history h1 res steps (fun s hs' => (hdis s.1 (hst s hs')).1)
+
+example : exR.Valid exHeap ∧ ∃ h1 res, exHeap.derive exR .copy = .ok (h1, res) ∧
+    ((h1.run [(res, .plain (.setItem "o9" "p9" true))]).read exR = exD) ∧
+    ((h1.run [(exR, .plain (.removeObject "o1"))]).read res = exD) :=
+  ⟨by decide, _, _, rfl, by decide, by decide⟩
+
+/-- whole programs — definitions created, mutated and derived from each other in any order, every
+variable bound once: running with reference semantics on the heap and running with value semantics on
+a plain list of values (as the test driver does) give the same values and show the same return
+values and exceptions; no two variables ever share an object -/
+theorem C14_program_refines (cs : List Cmd) :
+    ((PState.mk [] []).execAll cs).1.WF ∧
+    ((PState.mk [] []).execAll cs).1.vals = (vexecAll [] cs).1 ∧
+    ((PState.mk [] []).execAll cs).2 = (vexecAll [] cs).2 :=
+  execAll_sim wf_init cs
+
+example : (vexecAll [] [.create ["a"] ["x"] [[true]], .derive 0 .copy, .mutate 1 (.plain (.setItem "b" "x" true)),
+      .mutate 0 (.unionUpdate 1 false), .derive 0 (.intersection 1 false)]).1.map Defn.bools =
+    [[[true], [true]], [[true], [true]], [[true], [true]]] := by decide
 
 end FCA
 
@@ -529,3 +803,31 @@ open FCA in
 #print axioms C14_def_ctx_def
 open FCA in
 #print axioms C14_frame
+open FCA in
+#print axioms C14_ofTriple_of_accepted
+open FCA in
+#print axioms C14_def_ctx_roundtrip2
+open FCA in
+#print axioms C14_ctx_def_ctx
+open FCA in
+#print axioms C14_ctx_eq_iff_triple
+open FCA in
+#print axioms C14_ctxBools_of_triple
+open FCA in
+#print axioms C14_shape_fill
+open FCA in
+#print axioms C14_table_text
+open FCA in
+#print axioms C14_heap_refines
+open FCA in
+#print axioms C14_heap_refines_derived
+open FCA in
+#print axioms C14_fresh
+open FCA in
+#print axioms C14_no_alias
+open FCA in
+#print axioms C14_no_alias_history
+open FCA in
+#print axioms C14_no_alias_derived
+open FCA in
+#print axioms C14_program_refines
